@@ -56,6 +56,7 @@ pub fn run(ctx: &mut crate::Ctx) {
         g.plain = true;
         let a = args(&mut g);
         let note = format!("{round}");
+        for _ in 0..5 { commute(ctx, &mut g.rng); }
         macro_rules! pair { ($what:expr, $s:expr, $g:expr) => { cmp(ctx, $what, catch(|| $s), catch(|| $g), &note) } }
         let col = || Expr::col(id(&a.a));
         let wrap = |e: SimpleExpr| { let mut s = sel(&a); s.and_where(e); s };
@@ -224,6 +225,31 @@ pub fn run(ctx: &mut crate::Ctx) {
     }
 }
 
+
+/// builder calls that fill different fields commute: a statement built by the same calls in another order (the relative order of
+/// calls to the same field kept) is the same statement
+fn commute(ctx: &mut crate::Ctx, rng: &mut crate::SplitMix64) {
+    let calls = crate::c15::select_calls();
+    let k = 2 + rng.below(5) as usize;
+    let picks: Vec<(usize, u64)> = (0..k).map(|_| (rng.below(calls.len() as u64) as usize, rng.below(100))).collect();
+    // a permutation that keeps same-field calls in their relative order: stable sort by a random key per FIELD
+    let keys: Vec<u64> = (0..calls.len()).map(|_| rng.next()).collect();
+    let mut perm = picks.clone();
+    perm.sort_by_key(|(i, _)| keys[*i]);
+    let build = |seq: &[(usize, u64)]| { let mut s = SelectStatement::new(); for (i, k) in seq { (calls[*i].1)(&mut s, *k); } s };
+    let names: Vec<String> = picks.iter().map(|(i, k)| format!("{}({k})", calls[*i].0)).collect();
+    let pnames: Vec<String> = perm.iter().map(|(i, k)| format!("{}({k})", calls[*i].0)).collect();
+    ctx.eval_only(&format!("api commute {names:?} {pnames:?}"), true);
+    ctx.count("api.commute");
+    let (x, y) = (catch(|| build(&picks)), catch(|| build(&perm)));
+    match (x, y) {
+        (Some(x), Some(y)) => if x != y || render_q(&x) != render_q(&y) {
+            ctx.oracle_fail("builder calls that fill different fields do not commute", serde_json::json!({"calls": names, "other_order": pnames, "first": format!("{x:?}").chars().take(500).collect::<String>(), "second": format!("{y:?}").chars().take(500).collect::<String>()}));
+        },
+        (None, None) => {}
+        _ => ctx.oracle_fail("builder calls that fill different fields do not commute (one order panics)", serde_json::json!({"calls": names, "other_order": pnames})),
+    }
+}
 
 /// schema builders: every `ColumnDef` type setter against `new_with_type` with the column type it documents, every specification
 /// setter against `.spec(..)`: same definition (Debug), same rendering inside CREATE TABLE on the three backends
